@@ -7,8 +7,10 @@
 #                unreachable-from (the remote becomes unreachable from the k-th invocation on)
 #   unreachable  if present, every remote-touching subcommand fails like an unreachable remote
 #   log          one line per invocation: "<n> <args>"
-d="$(dirname "$0")"
-n=$(( $(cat "$d/count" 2>/dev/null || echo 0) + 1 ))
+d="${0%/*}"
+n=0
+[ -f "$d/count" ] && read -r n < "$d/count"
+n=$(( ${n:-0} + 1 ))
 echo "$n" > "$d/count"
 echo "$n $*" >> "$d/log"
 if [ -f "$d/plan" ]; then
